@@ -84,6 +84,11 @@ def _tree(depth: int, rich: bool, clip: bool = False) -> st.SearchStrategy[Any]:
     binary = st.tuples(st.sampled_from(ARITH), sub, sub).map(list)
     options = [leaf, binary, binary, binary]
     if rich:
+        # method-style operators are weighted up: chains like x.max(b).production().max(c) need several of
+        # them in a row
+        unary = st.tuples(st.sampled_from(["cons", "prod"]), sub).map(list)
+        minmax = st.tuples(st.sampled_from(["max", "min"]), sub, sub).map(list)
+        options += [unary, unary, minmax, minmax, minmax]
         const_q = st.tuples(st.just("c"), st.sampled_from([0.0, 1.0, -2.0, 3.5, 10.0])).map(list)
         options.append(st.tuples(st.sampled_from(["+", "-", "*", "/", "max", "min"]), sub, const_q).map(list))
         options.append(st.tuples(st.sampled_from(["max", "min"]), sub, sub).map(list))
